@@ -58,10 +58,11 @@ def check_wiring(ctx, rule, rows, entry, phases=None, kinds=STRONG_KINDS):
             ctx.check(e.code == want, rule, ref, "code of %s" % ref, where,
                       "%s must be published as %s (specification), registered actual_code is %r" % (ref, want, e.code),
                       desc="%s published as %s" % (ref, want))
-        sev = reg.severity[row.get("severity", "ERROR")]
-        ctx.check(e.severity == sev, rule, ref, "severity of %s" % ref, where,
-                  "%s must have default severity %s, registered %r" % (ref, row.get("severity", "ERROR"), e.severity),
-                  desc="%s severity %s" % (ref, row.get("severity", "ERROR")))
+        if row.get("severity", "ERROR") is not None:
+            sev = reg.severity[row.get("severity", "ERROR")]
+            ctx.check(e.severity == sev, rule, ref, "severity of %s" % ref, where,
+                      "%s must have default severity %s, registered %r" % (ref, row.get("severity", "ERROR"), e.severity),
+                      desc="%s severity %s" % (ref, row.get("severity", "ERROR")))
         sites = reg.sites_for_key(key)
         ctx.count_sites(len(sites))
         scope = reach_phase[row["phase"]] if row.get("phase") else reach_entry
